@@ -17,6 +17,8 @@ const PROGRAMS: &[&str] = &[
     "p(0). p(1).", "p(0..1).", "q(0). q(1). p(X) :- q(X).", "q(0). q(1). p(X) :- q(X), not r(X). r(1).", "q(0). q(1). {p(X)} :- q(X).", "q(0). q(1). p(X+1) :- q(X).", "q(1). p(X) :- q(X), X > 0.", "q(0). q(1). p(X) :- q(X), X != 1.",
     "q(0). q(1). p(X) :- q(X), not not p(X).", "q(0). q(1). :- q(X), not p(X). {p(X)} :- q(X).", "q(0). {q(1)}. p :- q(1).", "q(1). p(X) :- X = 0..1, q(1).", "q(0). q(1). p(1 - X) :- q(X).", "q(0). q(1). r(X) :- q(X), not p(X). {p(0)}.",
     "q(0). q(2). p(X/2) :- q(X).", "q(a). q(1). p(X) :- q(X), X < a.", "p(X) :- q(X).", "p(X) :- q(X), not r(X).", "{p(X)} :- q(X).", "q(0). p(X) :- q(X), t. {t}.", "q(0, 1). p(X) :- q(X, Y).", "q(0, 1). q(1, 1). p(Y) :- q(X, Y), X != Y.",
+    // propositional heads with variables in the body
+    "q(a). p :- q(X).", "q(0). q(1). r(1). p :- q(X), not r(X).", "q(0). {p} :- q(X).", "q(0, 1). p :- q(X, Y), X != Y. r :- q(X, X).", "q(1). p :- q(X), X > 0. :- q(X), not p.", "{q(0)}. {q(1)}. p :- q(X), not q(X + 1).",
     // variables named like the head variables the translation introduces
     "q(0). q(1). p(V1) :- q(V1).", "q(1). q(a). p(V1) :- q(V1), not r(V1).", "q(0). p(V2, V1) :- q(V1), q(V2).", "q(0). q(1). {p(V1)} :- q(V1), V1 != V.  r(V) :- q(V).", "q(1). p(V3) :- q(V1), V3 = V1 + 1.",
     // one symbol at two arities: one defined by rules, the other only used
@@ -65,10 +67,18 @@ pub fn check(st: &mut CStats, fails: &mut Vec<Failure>) {
         if rc != 0 { fails.push(Failure { property: "C04", input: what, detail: format!("the tau* theory of a program is refused: {}", err.lines().next().unwrap_or("")) }); continue; }
         let formulas: Vec<_> = read_printed(&out);
         if formulas.iter().any(|f| f.is_none()) { fails.push(Failure { property: "C15", input: what, detail: "a printed formula of the completion does not read back".into() }); continue; }
-        let formulas: Vec<_> = formulas.into_iter().flatten().map(|f| cheapest_first(&f)).collect();
+        let formulas: Vec<_> = formulas.into_iter().flatten().collect();
+        // a completed definition is a sentence
+        if let Some(f) = formulas.iter().find(|f| { let mut fv = Vec::new(); crate::hteval::free_vars(f, &mut Vec::new(), &mut fv); !fv.is_empty() }) {
+            fails.push(Failure { property: "C04", input: what, detail: format!("the completion contains the formula `{f}`, which has a free variable (a body variable of a rule that was not closed existentially?)") });
+            continue;
+        }
+        let formulas: Vec<_> = formulas.into_iter().map(|f| cheapest_first(&f)).collect();
         // universe: the program's predicates over the values that occur in it or are inner
         let mut atoms: Vec<GroundAtom> = Vec::new();
-        for q in p.predicates() {
+        for (q_symbol, q_arity) in crate::own::program_preds(&p) {
+            struct Q { symbol: String, arity: usize }
+            let q = Q { symbol: q_symbol, arity: q_arity };
             let vals: &[Val] = if q.arity <= 1 { &inner } else { &inner[..2] };
             let mut idx = vec![0usize; q.arity];
             'o: loop {
